@@ -14,6 +14,9 @@ import time
 VERIF = os.path.dirname(os.path.dirname(os.path.abspath(__file__)))
 SPECS = os.path.join(VERIF, "specs")
 WORK = os.path.join(VERIF, ".work")
+# the tree under verification: /repo unless a scratch copy is named (used by tools/ to try seeded changes in parallel, never by
+# the registered commands)
+REPO = os.environ.get("VERIF_REPO") or "/repo"
 JAR = "/opt/veriftools/tla/tla2tools.jar"
 DEPS = "/opt/veriftools/tla/CommunityModules-deps.jar"
 
